@@ -53,6 +53,10 @@ type CheckSpec struct {
 	Hook     string        `json:"hook,omitempty"` // identity add remove replace fail
 	HookKey  string        `json:"hook_key,omitempty"`
 	HookVal  *Val          `json:"hook_val,omitempty"`
+	// Prov: additionally decide with tokens of mixed provenance: inv-built (the invocation
+	// object as constructed, never sealed and decoded), dlg-built (the loader hands out the
+	// delegation objects as constructed for everything the store holds), all-built
+	Prov string `json:"prov,omitempty"`
 }
 
 type ProbeSpec struct {
@@ -896,7 +900,28 @@ type decision struct {
 
 // decideOne runs the real decision for one delivered invocation and holds it
 // against the model.
+// builtLoader hands out, for every delegation the store holds, the object as it was
+// constructed (same CID, never decoded).
+type builtLoader struct{ w *worldExec }
+
+func (b builtLoader) GetDelegation(c cid.Cid) (*delegation.Token, error) {
+	d, err := b.w.store.GetDelegation(c)
+	if err != nil || d == nil {
+		return d, err
+	}
+	if rec, ok := b.w.ledger[cidHex(c.Bytes())]; ok && rec.kind == "dlg" {
+		if obj, ok := rec.obj.(*delegation.Token); ok && obj != nil {
+			return obj, nil
+		}
+	}
+	return d, nil
+}
+
 func (w *worldExec) decideOne(label string, c *CheckSpec, useHook bool) decision {
+	return w.decideProv(label, c, useHook, "")
+}
+
+func (w *worldExec) decideProv(label string, c *CheckSpec, useHook bool, prov string) decision {
 	o := w.o
 	a, ok := w.outbox[label]
 	if !ok || a.kind != "inv" {
@@ -908,7 +933,18 @@ func (w *worldExec) decideOne(label string, c *CheckSpec, useHook bool) decision
 		return decision{}
 	}
 	spec := a.ispec
-	ld := &faultLoader{inner: w.store, faults: c.LFaults, o: o}
+	var inner delegation.Loader = w.store
+	if prov == "inv-built" || prov == "all-built" {
+		obj, ok := a.obj.(*invocation.Token)
+		if !ok || obj == nil {
+			return decision{}
+		}
+		inv = obj
+	}
+	if prov == "dlg-built" || prov == "all-built" {
+		inner = builtLoader{w}
+	}
+	ld := &faultLoader{inner: inner, faults: c.LFaults, o: o}
 	var err error
 	hookFailed := false
 	entry := "ExecutionAllowed"
@@ -980,7 +1016,23 @@ func (w *worldExec) decideOne(label string, c *CheckSpec, useHook bool) decision
 		audKind = "other"
 	}
 	attrs := map[string]string{"aud": audKind, "hook": c.Hook, "entry": entry}
-	o.Logf("check %s %s t=%d allowed=%v P=%v K=%v Q=%v Ws=%v Wt=%v loads=%d", label, entry, tNS, allowed, v.P, v.K, v.Q, v.Wsound, v.Wstrict, len(ld.got))
+	if prov != "" {
+		attrs["prov"] = prov
+		o.Probe("decision_on_" + prov)
+		// constructed tokens keep sub-second bounds the model (whole seconds, as sealed) does
+		// not know: no window verdict within a second of any bound
+		near := func(b *int64) bool { return b != nil && *b < 9_000_000_000 && *b > -9_000_000_000 && abs64(tNS-*b*1_000_000_000) <= 1_000_000_000 }
+		nb := near(spec.Exp)
+		for _, d := range dl {
+			if d != nil && (near(d.Nbf) || near(d.Exp)) {
+				nb = true
+			}
+		}
+		if nb {
+			v.Wsound, v.Wstrict = true, false
+		}
+	}
+	o.Logf("check %s %s%s t=%d allowed=%v P=%v K=%v Q=%v Ws=%v Wt=%v loads=%d", label, entry, prov, tNS, allowed, v.P, v.K, v.Q, v.Wsound, v.Wstrict, len(ld.got))
 	for _, p := range []string{"C01", "C02", "C03", "C04", "C05"} {
 		o.Eval(p)
 	}
@@ -1045,7 +1097,7 @@ func (w *worldExec) decideOne(label string, c *CheckSpec, useHook bool) decision
 		o.Probe("policy_verdict_indefinite")
 	}
 	if v.P && v.K && v.Q && v.Qdefinite && v.Wstrict {
-		o.Sig("C05", nl, repPattern(spec, dl), audKind, spec.Iat, spec.Exp != nil, len(spec.Meta), spec.Cause, spec.NonceLen, c.Hook, useHook)
+		o.Sig("C05", nl, repPattern(spec, dl), audKind, spec.Iat, spec.Exp != nil, len(spec.Meta), spec.Cause, spec.NonceLen, c.Hook, useHook, prov)
 	}
 	return decision{ran: true, allowed: allowed, verdict: v}
 }
@@ -1084,6 +1136,10 @@ func repPattern(inv *InvSpec, dl []*DlgSpec) string {
 func (w *worldExec) check(c *CheckSpec) {
 	d0 := w.decideOne(c.Inv, c, false)
 	w.decideOne(c.Inv, c, true)
+	if c.Prov != "" {
+		w.decideProv(c.Inv, c, false, c.Prov)
+		w.decideProv(c.Inv, c, true, c.Prov)
+	}
 	if !d0.ran {
 		return
 	}
@@ -1207,4 +1263,11 @@ func init() {
 			return &p, nil
 		},
 	})
+}
+
+func abs64(x int64) int64 {
+	if x < 0 {
+		return -x
+	}
+	return x
 }
